@@ -2,10 +2,11 @@
 //! precedence over libc's for the statically linked hdwallet library. Answers are scripted per thread.
 use std::cell::RefCell;
 
-#[derive(Clone, Debug)]
-pub enum Answer { Bytes(Vec<u8>), Fail }
+/// The scripted source: one continuous byte stream that cycles through `pattern` and continues across requests
+/// (however many requests an implementation makes, the entropy it gathers is a prefix of the stream);
+/// request number `fail_at` fails, and so does every later one unless `once`.
 #[derive(Default)]
-pub struct Script { pub answers: Vec<Answer>, pub pos: usize, pub requests: Vec<usize>, pub handed: Vec<u8>, pub active: bool }
+pub struct Script { pub pattern: Vec<u8>, pub pos: usize, pub fail_at: Option<usize>, pub once: bool, pub requests: Vec<(usize, bool)>, pub handed: Vec<u8>, pub active: bool }
 thread_local! { pub static SCRIPT: RefCell<Script> = RefCell::new(Script::default()); }
 
 extern "C" { fn __errno_location() -> *mut i32; }
@@ -17,16 +18,26 @@ pub unsafe extern "C" fn getentropy(buf: *mut u8, len: usize) -> i32 {
         if !s.active { // outside a scripted case: deterministic filler, never the real OS source
             for i in 0..len { *buf.add(i) = (i as u8).wrapping_mul(37).wrapping_add(11); } return 0;
         }
-        s.requests.push(len);
-        let a = s.answers.get(s.pos).cloned().unwrap_or(Answer::Fail); s.pos += 1;
-        match a {
-            Answer::Fail => { *__errno_location() = 5; -1 } // EIO
-            Answer::Bytes(b) => { for i in 0..len { let v = b[i % b.len().max(1)]; *buf.add(i) = v; s.handed.push(v); } 0 }
-        }
+        let k = s.requests.len();
+        let fail = s.fail_at.map_or(false, |f| if s.once { k == f } else { k >= f });
+        s.requests.push((len, !fail));
+        if fail { *__errno_location() = 5; return -1; } // EIO
+        for i in 0..len { let v = if s.pattern.is_empty() { 0 } else { s.pattern[s.pos % s.pattern.len()] }; s.pos += 1; *buf.add(i) = v; s.handed.push(v); }
+        0
     })
 }
-pub fn with_script<T>(answers: Vec<Answer>, f: impl FnOnce() -> T) -> (T, Vec<usize>, Vec<u8>) {
-    SCRIPT.with(|s| *s.borrow_mut() = Script { answers, pos: 0, requests: vec![], handed: vec![], active: true });
+extern "C" { fn syscall(num: i64, ...) -> i64; }
+/// The same source reached through getrandom(2)'s libc wrapper. Requests made with GRND_NONBLOCK / GRND_INSECURE
+/// (hash-map seeding of the Rust runtime) never carry key material and go to the kernel.
+/// # Safety: called with a valid buffer
+#[no_mangle]
+pub unsafe extern "C" fn getrandom(buf: *mut u8, len: usize, flags: u32) -> isize {
+    if flags & 0x5 != 0 || !SCRIPT.with(|s| s.borrow().active) { return syscall(318, buf, len, flags) as isize; } // SYS_getrandom on x86_64
+    if getentropy(buf, len) == 0 { len as isize } else { -1 }
+}
+/// runs `f` with the scripted source; returns its result, the requests made (length, answered?) and the bytes handed out
+pub fn with_script<T>(pattern: Vec<u8>, fail_at: Option<usize>, once: bool, f: impl FnOnce() -> T) -> (T, Vec<(usize, bool)>, Vec<u8>) {
+    SCRIPT.with(|s| *s.borrow_mut() = Script { pattern, pos: 0, fail_at, once, requests: vec![], handed: vec![], active: true });
     let r = f();
     let (req, handed) = SCRIPT.with(|s| { let mut s = s.borrow_mut(); s.active = false; (std::mem::take(&mut s.requests), std::mem::take(&mut s.handed)) });
     (r, req, handed)
